@@ -318,6 +318,8 @@ def _excluded(rel, patterns):
             return True
         if kind == "prefix" and rel.startswith(val):
             return True
+        if kind == "twice" and rel.endswith(".py") and rel.count(val) >= 2:
+            return True
     return False
 
 
@@ -362,6 +364,21 @@ def gen_cfg(rng, tree, plain=False, ext_bias=False):
             else:
                 ex.append(f".*/{n}\\.py$")
                 patterns.append(("suffix", "/" + n + ".py"))
+        if rng.random() < 0.4:
+            # patterns that are only independent of each other as long as each is compiled on its own:
+            # a capturing group, a numbered back-reference (a path naming the same stem twice, as in
+            # core/corex.py), an inline flag
+            stems = [n for n in ("alpha", "beta", "core", "gam", "util") if n in names_in_tree]
+            if stems:
+                st = pick(rng, stems)
+                ex.append(f".*({st}).*\\1.*\\.py$")
+                patterns.append(("twice", st))
+            n = pick(rng, names_in_tree)
+            ex.append(f".*/({n}|nosuch)\\.py$")
+            patterns.append(("suffix", "/" + n + ".py"))
+            if rng.random() < 0.5 and n.isidentifier():
+                ex.append(f"(?i).*/{n.upper()}/.*")
+                patterns.append(("contains", "/" + n + "/"))
         kw["exclusions"] = []
         kw["regex_exclusions"] = sorted(set(ex))
     if "exclusions" not in kw or "*__pycache__*" in kw.get("exclusions", []) or \
